@@ -315,8 +315,9 @@ def run(ctx: Ctx) -> None:
     loops.rule_pivot_choice(ctx, STABF)
     from ..rules import echelon as _echelon
     _echelon.rule_elim_direction(ctx)
-    from .c11 import rule_pivot_found
+    from .c11 import rule_pivot_found, rule_block_conditions
     rule_pivot_found(ctx)
+    rule_block_conditions(ctx)
     from ..rules import bitform as _bitform
     _bitform.rule_helper_shape(ctx)
     _bitform.rule_g_table(ctx)
